@@ -53,7 +53,7 @@ inline void report_fail(uint64_t idx, const JObj &desc) {
 
 struct Runner {
     std::string name;
-    std::string workdir = "/verif/build/work";
+    std::string workdir = getenv("VERIF_WORK") ? getenv("VERIF_WORK") : "/verif/build/work";
     int nshards = 16;
     uint64_t ncases = 0;
     double deadline_s = 120;
